@@ -525,7 +525,10 @@ class IRGenerator:
                     'Bad arguments to annotation type %s.' % quote(item.annotation_type),
                     item.lineno, item.path)
         else:
-            if item.annotation_type_ns is not None:
+            if (item.annotation_type_ns is not None and
+                    item.annotation_type_ns != namespace.name):
+                # (a namespace that names itself is reported as not imported
+                # when the annotation type is resolved)
                 namespace.add_imported_namespace(
                     self.api.ensure_namespace(item.annotation_type_ns),
                     imported_annotation_type=True)
